@@ -595,17 +595,59 @@ def sym_index(seq, i):
 
 _HEX = b"0123456789abcdef"
 
+# Provenance of characters the engine itself rendered from numbers.  A character produced by hex_items()
+# IS the lowercase hex digit of its nibble, and the characters produced by dec_str() ARE the decimal
+# expansion of their integer, so decoders may return the source value instead of re-deriving it digit by
+# digit (an identity of positional notation that bit-blasting cannot re-prove for 64-bit values).
+HEX_SRC = {}   # id(char expr) -> (char expr kept alive, nibble)
+DEC_SRC = {}   # id(char expr) -> (char expr kept alive, source SymInt (non-negative), position, ndigits)
+
+
+def _gc_src():
+    if len(HEX_SRC) > 500000:
+        HEX_SRC.clear()
+    if len(DEC_SRC) > 200000:
+        DEC_SRC.clear()
+
 
 def hex_items(items):
     out = []
+    _gc_src()
     for it in items:
         if isinstance(it, int):
             out.append(_HEX[it >> 4])
             out.append(_HEX[it & 15])
         else:
             for nib in (it >> 4, it & 15):
-                out.append(ite(nib < 10, nib + 48, nib + 87))
+                ch = ite(nib < 10, nib + 48, nib + 87)
+                if isinstance(ch, SymInt):
+                    HEX_SRC[ch.e.get_id()] = (ch.e, nib)
+                out.append(ch)
     return out
+
+
+def hex_source(ch):
+    if isinstance(ch, SymInt):
+        r = HEX_SRC.get(ch.e.get_id())
+        if r is not None:
+            return r[1]
+    return None
+
+
+def dec_source(items):
+    """if `items` are exactly the decimal digits the engine rendered for one integer, return it"""
+    if not items or not isinstance(items[0], SymInt):
+        return None
+    r0 = DEC_SRC.get(items[0].e.get_id())
+    if r0 is None or r0[2] != 0 or r0[3] != len(items):
+        return None
+    for k, it in enumerate(items):
+        if not isinstance(it, SymInt):
+            return None
+        r = DEC_SRC.get(it.e.get_id())
+        if r is None or r[1] is not r0[1] or r[2] != k:
+            return None
+    return r0[1]
 
 
 def _lower(i, text=True):
